@@ -224,6 +224,8 @@ def check(run: Run) -> None:
     from ..report import run_stage
 
     run_stage(run, "c03")
+    run.rule("C05.R11", "the capture rewriter every helper body goes through respects binders (C04.R1 re-evaluated): names bound by enclosing lambdas / comprehensions are not replaced by same-named captured values")
+    run_stage(run, "c04", only={"C04.R1"})
 
     # ---------------- R7: which function a helper name stands for is decided by the callable's own scopes (shared with C04.R3/R6)
     run.rule("C05.R7", "the helper that is inlined is the one the name denotes for the callable: closure before module globals, in a fresh table")
